@@ -72,7 +72,7 @@ func (p *pool) runPrim(pc PrimCase, tr *hx.Trace) {
 	}
 
 	rec.Coq = fmt.Sprintf("{| c_cfg := mkcfg JweAnon %s %s DidKey; c_viapk := false; c_spar := []; c_payload := 0; c_sender := 0; c_rcpts := []; "+
-		"c_refs := None; c_form := 0; c_history := false; c_kts := []; c_prim := Some {| pr_1pu := %s; pr_field := %s; pr_ok := %s |}; c_wraps := None; c_att := []; "+
+		"c_refs := None; c_form := 0; c_history := false; c_kts := []; c_prim := Some {| pr_1pu := %s; pr_field := %s; pr_ok := %s |}; c_wraps := None; c_calls := None; c_att := []; "+
 		"c_packed := false; c_unp := [] |}", pc.KT, pc.Enc, hx.CoqBool(pc.Prim == "wrap-1pu"), pc.Field, hx.CoqBool(ok))
 	rec.Observed = map[string]interface{}{"returned_original": ok, "detail": detail}
 	rec.Class = fmt.Sprintf("prim/%s/%s/%s/%s/%v", pc.Prim, pc.KT, pc.Enc, pc.Field, ok)
